@@ -53,6 +53,11 @@ type interpreter struct {
 	skipGo             map[string]bool
 	overrides          map[string]value
 	goQueue            []func()
+	gors               []*gor
+	curG               *gor
+	progress           int
+	abortAll           bool
+	sync               chan struct{}
 }
 
 type deferred struct {
@@ -96,6 +101,7 @@ func newInterpreter(prog *ssa.Program, w *worker) *interpreter {
 		initDep:     map[*ssa.Global]bool{},
 		initScanned: map[*ssa.Package]bool{},
 		skipGo:      map[string]bool{},
+		sync:        make(chan struct{}),
 		overrides:   map[string]value{},
 	}
 	if runtimePkg := prog.ImportedPackage("runtime"); runtimePkg != nil {
@@ -108,6 +114,7 @@ func (i *interpreter) resetPathState() {
 	i.top = nil
 	i.depth = 0
 	i.goQueue = nil
+	i.initSched()
 }
 
 // global returns the address of a global, allocating it (zeroed) on first
@@ -203,6 +210,7 @@ func (i *interpreter) runInits(cfg Config) (msg string) {
 	}()
 	i.w.item = &workItem{}
 	i.w.m = newModel()
+	i.initSched()
 	call(i, nil, token.NoPos, cfg.Pkg.Func("init"), nil)
 	return ""
 }
@@ -661,9 +669,9 @@ func (i *interpreter) decideValue(v value, what string) bool {
 	panic(fmt.Sprintf("decideValue(%s): %T", what, v))
 }
 
-// spawn handles a go statement. Goroutines are run synchronously at the
-// point of the go statement (one deterministic schedule); callees the
-// harness declared as non-terminating service loops are recorded and skipped.
+// spawn handles a go statement: the goroutine is registered with the baton
+// scheduler (sched.go); callees the harness declared as non-terminating
+// service loops are recorded and not run.
 func (i *interpreter) spawn(fr *frame, instr *ssa.Go, fn value, args []value) {
 	name := ""
 	switch f := fn.(type) {
@@ -673,21 +681,11 @@ func (i *interpreter) spawn(fr *frame, instr *ssa.Go, fn value, args []value) {
 		name = f.Fn.String()
 	}
 	if i.skipGo[name] || i.skipGo["*"] {
-		i.w.stubs["go "+name+" (not run)"]++
+		i.w.stubs["go "+name+" (service loop: not run)"]++
 		return
 	}
-	i.w.stubs["go "+name+" (run synchronously)"]++
-	func() {
-		defer func() {
-			if r := recover(); r != nil {
-				if b, ok := r.(blockEvent); ok {
-					unsupported("goroutine %s blocks (%s) in the synchronous schedule", name, b.op)
-				}
-				panic(r)
-			}
-		}()
-		call(i, nil, instr.Pos(), fn, args)
-	}()
+	i.w.stubs["go "+name+" (run under the baton scheduler, one schedule)"]++
+	i.spawnGoroutine(name, instr.Pos(), fn, args)
 }
 
 func (i *interpreter) doSelect(fr *frame, instr *ssa.Select) value {
@@ -696,62 +694,70 @@ func (i *interpreter) doSelect(fr *frame, instr *ssa.Select) value {
 		ch   *chanv
 		send bool
 	}
-	var ready []cs
-	var timers []cs
-	for k, st := range instr.States {
-		ch, _ := fr.get(st.Chan).(*chanv)
-		if ch == nil {
-			continue
+	for {
+		var ready []cs
+		var timers []cs
+		for k, st := range instr.States {
+			ch, _ := fr.get(st.Chan).(*chanv)
+			if ch == nil {
+				continue
+			}
+			if st.Dir == types.SendOnly {
+				if ch.closed {
+					panic(runtimePanic{"send on closed channel"})
+				}
+				if ch.canSend() {
+					ready = append(ready, cs{k, ch, true})
+				}
+			} else {
+				if len(ch.buf) > 0 || ch.closed {
+					ready = append(ready, cs{k, ch, false})
+				} else if ch.timer {
+					timers = append(timers, cs{k, ch, false})
+				}
+			}
 		}
-		if st.Dir == types.SendOnly {
-			if ch.closed {
-				panic(runtimePanic{"send on closed channel"})
+		chosen := -1
+		var recv value
+		recvOk := false
+		switch {
+		case len(ready) > 0:
+			c := ready[0]
+			chosen = c.idx
+			if c.send {
+				i.chanSend(c.ch, fr.get(instr.States[c.idx].Send))
+			} else {
+				recv, recvOk = i.chanRecv(c.ch, instr.States[c.idx].Chan.Type().Underlying().(*types.Chan).Elem())
 			}
-			if len(ch.buf) < ch.cap || ch.peer {
-				ready = append(ready, cs{k, ch, true})
+		case !instr.Blocking:
+			chosen = -1
+		default:
+			// nothing ready: let the other goroutines run first; a timer fires
+			// only when nobody else can make progress
+			if i.yield() {
+				continue
 			}
-		} else {
-			if len(ch.buf) > 0 || ch.closed {
-				ready = append(ready, cs{k, ch, false})
-			} else if ch.timer {
-				timers = append(timers, cs{k, ch, false})
+			if len(timers) == 0 {
+				panic(blockEvent{"select with no ready case", nil})
 			}
-		}
-	}
-	chosen := -1
-	var recv value
-	recvOk := false
-	switch {
-	case len(ready) > 0:
-		c := ready[0]
-		chosen = c.idx
-		if c.send {
-			i.chanSend(c.ch, fr.get(instr.States[c.idx].Send))
-		} else {
+			c := timers[0]
+			chosen = c.idx
 			recv, recvOk = i.chanRecv(c.ch, instr.States[c.idx].Chan.Type().Underlying().(*types.Chan).Elem())
 		}
-	case !instr.Blocking:
-		chosen = -1
-	case len(timers) > 0:
-		c := timers[0]
-		chosen = c.idx
-		recv, recvOk = i.chanRecv(c.ch, instr.States[c.idx].Chan.Type().Underlying().(*types.Chan).Elem())
-	default:
-		panic(blockEvent{"select with no ready case", nil})
-	}
-	r := tuple{chosen, recvOk}
-	for k, st := range instr.States {
-		if st.Dir == types.RecvOnly {
-			var v value
-			if k == chosen && recvOk {
-				v = recv
-			} else {
-				v = zero(st.Chan.Type().Underlying().(*types.Chan).Elem())
+		r := tuple{chosen, recvOk}
+		for k, st := range instr.States {
+			if st.Dir == types.RecvOnly {
+				var v value
+				if k == chosen && recvOk {
+					v = recv
+				} else {
+					v = zero(st.Chan.Type().Underlying().(*types.Chan).Elem())
+				}
+				r = append(r, v)
 			}
-			r = append(r, v)
 		}
+		return r
 	}
-	return r
 }
 
 // prepareCall determines the function value and argument values for a
